@@ -48,6 +48,7 @@ func runC18(r *run) {
 		rules := []c18Rule{{false, c18VolExpr, "~"}}
 		homeRemoved := false
 		goodTable := true
+		mine := map[string]string{} // the mappings registered by this history, as the harness knows them (not read back from the library)
 		nOps := g.intn(8)
 		var hist []string
 		if h == 0 { // the witness of the known finding C18-home-mapping-removed
@@ -56,18 +57,41 @@ func runC18(r *run) {
 			hist = append(hist, "RemoveKnownPathMapping(home)")
 			nOps = 0
 		}
+		if h%4 == 1 {
+			// nested prefixes, and the outer one removed again: the inner mapping stays in force
+			inner, outer := "/data/deep/er", "/data"
+			if g.chance(1, 2) {
+				slog.AddKnownPathMapping(outer, "~o")
+				slog.AddKnownPathMapping(inner, "~i")
+				mine[outer], mine[inner] = "~o", "~i"
+				hist = append(hist, `Add("/data","~o")`, `Add("/data/deep/er","~i")`)
+			} else {
+				slog.AddKnownPathMapping(inner, "~i")
+				slog.AddKnownPathMapping(outer, "~o")
+				mine[outer], mine[inner] = "~o", "~i"
+				hist = append(hist, `Add("/data/deep/er","~i")`, `Add("/data","~o")`)
+			}
+			if g.chance(2, 3) {
+				slog.RemoveKnownPathMapping(outer)
+				delete(mine, outer)
+				hist = append(hist, `Remove("/data")`)
+			}
+		}
 		for i := 0; i < nOps; i++ {
 			switch g.intn(9) {
 			case 0, 1, 2:
 				k, v := keysGood[g.intn(len(keysGood))], replGood[g.intn(len(replGood))]
 				slog.AddKnownPathMapping(k, v)
+				mine[k] = v
 				hist = append(hist, fmt.Sprintf("Add(%q,%q)", k, v))
 			case 3:
 				k := keysGood[g.intn(len(keysGood))]
 				slog.RemoveKnownPathMapping(k)
+				delete(mine, k)
 				hist = append(hist, fmt.Sprintf("Remove(%q)", k))
 			case 4:
 				slog.ResetKnownPathMapping()
+				mine = map[string]string{}
 				homeRemoved = false
 				hist = append(hist, "Reset()")
 			case 5:
@@ -213,7 +237,7 @@ func runC18(r *run) {
 				r.count("path=" + class)
 				if fl&slog.Lprivacypath != 0 && goodTable {
 					for s := range got {
-						for k := range tbl {
+						for k := range mine {
 							if k != "" && strings.HasPrefix(p, k) && strings.HasPrefix(s, k) {
 								r.violate(violation{What: "a path under a registered mapping is reported with that directory prefix", Input: input, Actual: s})
 							}
@@ -268,7 +292,10 @@ func runC18(r *run) {
 				r.violate(violation{What: "the caller field is not hardened like Safety() under the current flags", Input: map[string]any{"history": hist, "stage": stage, "flags": int64(slog.GetFlags())}, Expected: want, Actual: got})
 			}
 		}
-		slog.SetFlags(base | slog.Lcaller | slog.Lprivacypath)
+		// flags the property does not mention must not matter for the hardening of the caller field
+		other := []slog.Flags{0, slog.Llineno, slog.Lcallerpackagename, slog.Lattrs, slog.Ldate, slog.LattrsR}[g.intn(6)]
+		base2 := (base &^ (slog.Llineno | slog.Lattrs)) | other
+		slog.SetFlags(base2 | slog.Lcaller | slog.Lprivacypath)
 		check("privacy on")
 		restore := slog.SaveFlagsAndMod(0, slog.Lprivacypath)
 		check("inside a scope with privacy off")
